@@ -270,6 +270,28 @@ var d9 = T{F: C, G: "g"}
 var d10 = map[T]Box[int]{{F: C}: {Val: V}}
 var d11 = map[int]int{q.Default.N: C}
 
+// a dot-imported name standing alone as the value of a specification or as an operand of a statement
+var d12 = V
+var d13, d14 = C, V
+
+const d15 = C
+
+const (
+	d16 int = C
+	d17     = C + 1
+)
+
+func f11() (int, T) {
+	var l1 = V
+	var l2, l3 T = T{}, T{F: V}
+	l4 := C
+	_, _, _ = l2, l3, l4
+	if V > C {
+		return V, T{}
+	}
+	return l1, l2
+}
+
 // every kind of assignment to a dot-imported variable
 func f12(n int) {
 	V = n
